@@ -3,6 +3,7 @@ package props
 import (
 	"bytes"
 	"fmt"
+	"io"
 	"math"
 	"strings"
 
@@ -441,7 +442,7 @@ func runC04(r *core.Run) {
 		recs = append(recs[:6], long)
 		for i, rc := range recs {
 			b := rc.build()
-			out = append(out, marshaller{fmt.Sprint("pool record ", i), b.MarshalText, func(w *bytes.Buffer) error { return b.Write(w) }})
+			out = append(out, marshaller{fmt.Sprint("pool record ", i), b.MarshalText, func(w *bytes.Buffer) error { return b.Write(w) }, func(w io.Writer) error { return b.Write(w) }})
 		}
 		return out
 	})
